@@ -680,9 +680,9 @@ class C43(Prop):
 
     # ---- generator
     def gen(self, rng, tier):
-        n_ops = {'quick': 110, 'thorough': 4000, 'search': 700}.get(tier, 110)
-        n_ub = {'quick': 40, 'thorough': 1200, 'search': 200}.get(tier, 40)
-        n_fz = {'quick': 400, 'thorough': 10000, 'search': 1500}.get(tier, 400)
+        n_ops = {'quick': 110, 'thorough': 2500, 'search': 700}.get(tier, 110)
+        n_ub = {'quick': 40, 'thorough': 1000, 'search': 200}.get(tier, 40)
+        n_fz = {'quick': 400, 'thorough': 8000, 'search': 1500}.get(tier, 400)
         seen = set()
         for _ in range(n_ops):
             body = gen_body(rng)
